@@ -40,6 +40,11 @@ def initial(r, git_urls=None, small=False):
     for a in r.sample(APPS, r.randrange(1, 3) if small else r.randrange(2, 5)):
         add_app(r, spec, a)
     spec["root_extra"] = r.sample(OPTIONAL_DEPS, r.randrange(0, 2 if small else 3))
+    # identical packages from different recipes / identical multiPackage siblings together in one project
+    if r.random() < 0.5:
+        spec["root_extra"] += [x for x in r.sample(["twinA", "twinB"], 2) if x not in spec["root_extra"]]
+    if r.random() < 0.3:
+        spec["root_extra"] += [x for x in r.sample(["mp-x", "mp-y"], 2) if x not in spec["root_extra"]]
     return spec
 
 
